@@ -429,6 +429,25 @@ pub fn gen_vals(r: &mut Rng, small: bool) -> (Vec<u16>, &'static str) {
             }
             (v, "dense-window")
         }
+        10 if r.chance(1, 2) => {
+            // one long run (the decoder starts from a bitset store) followed by short runs laid out on the 64-bit word grid:
+            // exactly one word, one word minus / plus a value, starting on / next to a word boundary, two whole words
+            let l0 = r.range(4200, 9000) as u32;
+            let s0 = r.below(2000) as u32;
+            let mut runs = vec![(s0, l0)];
+            let mut w = (s0 + l0) / 64 + 2;
+            for _ in 0..r.range(1, 12) {
+                let d = *r.pick(&[0u32, 0, 0, 1, 63]);
+                let l = *r.pick(&[63u32, 63, 62, 64, 0, 1, 127]);
+                let st = w * 64 + d;
+                if st + l > 65535 {
+                    break;
+                }
+                runs.push((st, l));
+                w = (st + l) / 64 + 1 + r.below(3) as u32;
+            }
+            (runs_to_vals(&runs), "long-run+word-grid-runs")
+        }
         10 => {
             // long runs: sum(len-1) > 4096 (the decoder starts from a bitset store)
             let n = r.range(1, 5) as usize;
